@@ -93,6 +93,36 @@ class ABytes(Abstract):
         return "<bytes of %s>" % self.origin
 
 
+class AData(Abstract):
+    """the input bytes handed to deserialize(): their length is unknown; anything built from them (a padded or sliced copy) is a
+    different buffer and says so"""
+
+    def __init__(self, what: Any = "data"):
+        self._data_ = what
+        self._kind_ = "bytes"
+
+    def abs_len(self) -> AbsInt:
+        return AbsInt(("byte-length-of", self._data_))
+
+    def ljust(self, n: Any, fill: Any = b" ") -> "AData":
+        return AData(("padded", self._data_, _x(n)))
+
+    def rjust(self, n: Any, fill: Any = b" ") -> "AData":
+        return AData(("padded-left", self._data_, _x(n)))
+
+    def __add__(self, o: Any) -> "AData":
+        return AData(("extended", self._data_))
+
+    def __radd__(self, o: Any) -> "AData":
+        return AData(("extended", self._data_))
+
+    def __getitem__(self, i: Any) -> Any:
+        return AData(("part", self._data_)) if isinstance(i, slice) else AbsInt(("byte-of", self._data_))
+
+    def __repr__(self) -> str:
+        return "<%s>" % (self._data_,)
+
+
 class AWriter(Abstract):
     def __init__(self, sink: Sink, name: Optional[str] = None):
         self.sink = sink
@@ -241,6 +271,10 @@ def codec_hook(ctx: Ctx, sink: Sink, enter: Callable[[str, List[Any]], bool], ch
         if last == "_BitWriter" and not e.args:
             return AWriter(sink)
         if last == "_BitReader":
+            # what the reader is built over: the caller's data as given (converted by bytes() or not), or something made of it
+            src_ = f.fold(e.args[0]) if e.args else None
+            what_ = getattr(src_, "_data_", None) or ("data" if getattr(src_, "_kind_", None) == "bytes" else None)
+            sink.emit(("READER-OVER", what_ if what_ is not None else "?"))
             return AReader(sink)
         if name == "range" and len(e.args) == 1:
             v = f.fold(e.args[0])
@@ -394,7 +428,7 @@ def normalize(events: Sequence[Any], values: bool = False) -> List[Any]:
     out: List[Any] = []
     for ev in events:
         k = ev[0]
-        if k == "NEW":
+        if k in ("NEW", "READER-OVER"):
             continue
         if k == "ALIGN":
             if ev[2] == 1:
